@@ -71,6 +71,15 @@ pub uninterp spec fn heap_deref(h: &HeapV) -> Option<Primitive>;
 pub open spec fn moved_out(p: Primitive) -> Option<Primitive> {
     match p { Primitive::HeapPrimitive(h) => heap_deref(&h), other => Some(other) }
 }
+// `==` of two Primitives (derived PartialEq): values of different variants are never equal -- a pointer never equals the value it points to
+pub uninterp spec fn prim_eq(a: Primitive, b: Primitive) -> bool;
+#[verifier::external_body]
+pub fn prim_equal(a: &Primitive, b: &Primitive) -> (r: bool)
+    ensures r == prim_eq(*a, *b),
+            (*a is Bool && *b is Bool) ==> r == (a->Bool_0 == b->Bool_0),
+            ((*a is Bool) != (*b is Bool)) ==> !r,
+            ((*a is HeapPrimitive) != (*b is HeapPrimitive)) ==> !r
+{ unimplemented!() }
 #[verifier::external_body]
 pub fn move_out_borrow(p: &Primitive) -> (r: Result<Primitive, VErr>)
     ensures moved_out(*p) is Some ==> r is Ok && r->Ok_0 == moved_out(*p)->Some_0, moved_out(*p) is None ==> r is Err
